@@ -164,9 +164,11 @@ def arguments_shape(shape):
     KW = seg("KW", mk=a)
     # kw_defaults: one entry per kw-only argument, None or an expression
     KD = seg("KD", like=KW, mk=lambda t: Opaque(t, ast.expr, none=z3.Bool("KD.is_none")))
+    KW2 = seg("KW2", mk=a)
+    KD2 = seg("KD2", like=KW2, mk=lambda t: Opaque(t, ast.expr, none=z3.Bool("KD2.is_none")))
     va = None if c.branch(z3.Bool("vararg.is_none")) else a("VA")
     ka = None if c.branch(z3.Bool("kwarg.is_none")) else a("KA")
-    return ast.arguments(posonlyargs=pos, args=args, vararg=va, kwonlyargs=[KW], kw_defaults=[KD],
+    return ast.arguments(posonlyargs=pos, args=args, vararg=va, kwonlyargs=[KW, KW2], kw_defaults=[KD, KD2],
                          kwarg=ka, defaults=defaults)
 
 
@@ -192,8 +194,11 @@ def node_shapes():
     S["Subscript"].append(("slice=tuple-with-a-slice", mk_sub_tuple))
     S["Slice"] = one(lambda: ast.Slice(lower=optional("lower"), upper=optional("upper"), step=optional("step")))
     S["Starred"] = one(lambda: ast.Starred(value=O("value"), ctx=ast.Load()))
+    # two adjacent runs wherever the generator distinguishes element classes: a list is a
+    # concatenation of homogeneous runs, and the ORDER between runs of different classes
+    # must be preserved (one homogeneous segment cannot see a reordering)
     S["Call"] = one(lambda: ast.Call(func=O("func"), args=[seg("args")],
-                                     keywords=[seg("keywords", ast.keyword)]))
+                                     keywords=[seg("keywords", ast.keyword), seg("keywords2", ast.keyword)]))
     for op in G.BINOP_LEVEL:
         S[f"BinOp.{op.__name__}"] = one(lambda op=op: ast.BinOp(left=O("left"), op=op(), right=O("right")))
     for op in G.UNARY_LEVEL:
@@ -207,17 +212,20 @@ def node_shapes():
     def mk_dict():
         K = seg("keys", mk=lambda t: Opaque(t, ast.expr, none=z3.Bool("keys.is_none")))
         V = seg("values", like=K)
-        return ast.Dict(keys=[K], values=[V])
+        K2 = seg("keys2", mk=lambda t: Opaque(t, ast.expr, none=z3.Bool("keys2.is_none")))
+        V2 = seg("values2", like=K2)
+        return ast.Dict(keys=[K, K2], values=[V, V2])
     S["Dict"] = one(mk_dict)
 
     def mk_compare():
         OPS = seg("ops", ast.cmpop)
         CMP = seg("comparators", like=OPS)
-        return ast.Compare(left=O("left"), ops=[OPS], comparators=[CMP])
+        op1 = Opaque("op1", ast.cmpop)
+        return ast.Compare(left=O("left"), ops=[OPS, op1], comparators=[CMP, O("cmp1")])
     S["Compare"] = one(mk_compare)
     S["NamedExpr"] = one(lambda: ast.NamedExpr(target=ast.Name(id=ident("target.id"), ctx=ast.Store()), value=O("value")))
     S["Lambda"] = [(sh, (lambda sh=sh: ast.Lambda(args=arguments_shape(sh), body=O("body")))) for sh in ("d<=a", "d>a")]
-    gens = lambda: [seg("generators", ast.comprehension)]
+    gens = lambda: [seg("generators", ast.comprehension), seg("generators2", ast.comprehension)]
     S["ListComp"] = one(lambda: ast.ListComp(elt=O("elt"), generators=gens()))
     S["SetComp"] = one(lambda: ast.SetComp(elt=O("elt"), generators=gens()))
     S["GeneratorExp"] = one(lambda: ast.GeneratorExp(elt=O("elt"), generators=gens()))
@@ -478,12 +486,13 @@ def requested_children(node):
     elif k in (ast.List, ast.Set, ast.Tuple):
         add_list(node.elts, "elts")
     elif k is ast.Dict:
-        isnone, _ = ctx().valid(z3.Bool("keys.is_none"))
-        if isnone:
-            add_list(node.values, "values", case="double_star")
-        else:
-            add_list(node.keys, "keys")
-            add_list(node.values, "values")
+        for K_, V_, flag in zip(node.keys, node.values, ("keys.is_none", "keys2.is_none")):
+            isnone, _ = ctx().valid(z3.Bool(flag))
+            if isnone:
+                add(V_, "values", case="double_star")
+            else:
+                add(K_, "keys")
+                add(V_, "values")
     elif k is ast.Compare:
         add(node.left, "left")
         add_list(node.comparators, "comparators")
@@ -496,9 +505,10 @@ def requested_children(node):
     elif k is ast.Lambda:
         add(node.body, "body")
         add_list(node.args.defaults, "defaults")
-        kdnone, _ = ctx().valid(z3.Bool("KD.is_none"))
-        if not kdnone:
-            add_list(node.args.kw_defaults, "kw_defaults")
+        for KD_, flag in zip(node.args.kw_defaults, ("KD.is_none", "KD2.is_none")):
+            kdnone, _ = ctx().valid(z3.Bool(flag))
+            if not kdnone:
+                add(KD_, "kw_defaults")
     elif k in (ast.ListComp, ast.SetComp, ast.GeneratorExp, ast.DictComp):
         if k is ast.DictComp:
             add(node.key, "key")
